@@ -140,7 +140,7 @@ Record Inv (st : lstate) : Prop := {
   inv_mfl   : Forall (fun ce => matches (snd ce) (fst ce)) (failed st);
   inv_fl    : forall ce p, In ce (failed st) -> In p (pids (fst ce)) -> In (p, ENotLeaderAnymore) (concl st);
   inv_comm  : map fst (tofsm st) = committed st;
-  inv_enq   : enqueued st = map snd (tofsm st) ++ map fst (queue st);
+  inv_enq   : enqueued st = map snd (tofsm st) ++ map fst (queue st) ++ map fst (failed st);
   inv_mq    : Forall (fun ce => matches (snd ce) (fst ce)) (queue st);
   inv_mf    : Forall (fun ec => matches (fst ec) (snd ec)) (tofsm st);
   inv_nl    : leading st = false -> queue st = [];
@@ -228,7 +228,7 @@ Proof.
       * exact Hmfl.
       * intros ce p A B. apply in_or_app. left. eapply Hfl; eauto.
       * exact Hc.
-      * rewrite He, map_app, map_map. simpl. rewrite <- app_assoc. reflexivity.
+      * rewrite He, (Hlf eq_refl), map_app, map_map. simpl. rewrite !app_nil_r. rewrite <- app_assoc. reflexivity.
       * apply Forall_app. split; [exact Hq|]. apply Forall_forall. intros x Hx.
         apply in_map_iff in Hx. destruct Hx as [r [Hx _]]. subst x. simpl. reflexivity.
       * exact Hm.
@@ -271,7 +271,7 @@ Proof.
       * exact Hmfl.
       * exact Hfl.
       * exact Hc.
-      * rewrite He, map_app. simpl. rewrite <- app_assoc. reflexivity.
+      * rewrite He, (Hlf eq_refl), map_app. simpl. rewrite !app_nil_r. rewrite <- app_assoc. reflexivity.
       * apply Forall_app. split; [exact Hq|]. constructor; [simpl; exact I|constructor].
       * exact Hm.
       * discriminate.
@@ -296,13 +296,13 @@ Proof.
     destruct HI as [Hf Hp Hlf Hmfl Hfl Hc He Hq Hm Hn Hperm Hr Herr].
     constructor; simpl.
     + exact Hf.
-    + rewrite Hp, (Hlf eq_refl). simpl. rewrite app_nil_r. reflexivity.
+    + rewrite Hp, (Hlf HL). simpl. rewrite app_nil_r. reflexivity.
     + discriminate.
     + exact Hq.
     + intros ce p A B. apply in_or_app. right. apply in_flat_map. exists ce. split; [exact A|].
       unfold conclude. apply in_map_iff. exists p. split; [reflexivity | exact B].
     + exact Hc.
-    + rewrite He. reflexivity.
+    + rewrite He, (Hlf HL). simpl. rewrite app_nil_r. reflexivity.
     + constructor.
     + exact Hm.
     + reflexivity.
@@ -314,3 +314,179 @@ Proof.
       apply in_flat_map in Hin. destruct Hin as [ce [_ Hin]]. unfold conclude in Hin.
       apply in_map_iff in Hin. destruct Hin as [x [E _]]. inversion E. right. right. reflexivity.
 Qed.
+
+Lemma run_Inv_from cur evs : forall st, Inv st -> run_ok cur st evs -> Inv (fold_left (step cur) evs st).
+Proof.
+  induction evs as [|ev evs IH]; intros st HI Hok; simpl; [exact HI|].
+  destruct Hok as [H1 H2]. apply IH; [apply step_Inv; assumption | exact H2].
+Qed.
+
+Lemma run_Inv cur evs : core_contract cur evs -> Inv (run cur evs).
+Proof. intros H. apply run_Inv_from; [apply Inv_init | exact H]. Qed.
+
+Lemma fsm_run_pids l : forall s, map fst (fsm_run s l) = flat_map (fun ec => pids (snd ec)) l.
+Proof.
+  induction l as [|[e c] l IH]; intros s; simpl; [reflexivity|].
+  destruct e as [cmd tag|].
+  - destruct (apply s cmd) as [s' res]. rewrite map_app, IH. unfold conclude. rewrite map_map. simpl.
+    rewrite map_id. reflexivity.
+  - rewrite map_app, IH. unfold conclude. rewrite map_map. simpl. rewrite map_id. reflexivity.
+Qed.
+
+Lemma fsm_run_result l : forall s k cmd tag c p,
+  nth_error l k = Some (ENormal cmd tag, c) -> In p (pids c) ->
+  In (p, Applied (Some (snd (apply (fsm_state s (firstn k l)) cmd)))) (fsm_run s l).
+Proof.
+  induction l as [|[e c0] l IH]; intros s k cmd tag c p Hn Hp.
+  - destruct k; discriminate.
+  - destruct k as [|k].
+    + simpl in Hn. inversion Hn; subst. simpl. destruct (apply s cmd) as [s' res] eqn:E. simpl.
+      apply in_or_app. left. unfold conclude. apply in_map_iff. exists p. split; [reflexivity | exact Hp].
+    + simpl in Hn. simpl. destruct e as [cmd0 tag0|].
+      * destruct (apply s cmd0) as [s' res] eqn:E. simpl. apply in_or_app. right.
+        apply (IH s' k cmd tag c p Hn Hp).
+      * apply in_or_app. right. apply (IH s k cmd tag c p Hn Hp).
+Qed.
+
+Lemma nodup_app_disj {A} (a b : list A) x : NoDup (a ++ b) -> In x a -> In x b -> False.
+Proof.
+  induction a as [|y a IH]; simpl; intros Hnd Ha Hb; [contradiction|].
+  inversion Hnd; subst. destruct Ha as [E|Ha].
+  - subst y. apply H1. apply in_or_app. right. exact Hb.
+  - apply IH; assumption.
+Qed.
+
+Lemma nodup_app_l {A} (a b : list A) : NoDup (a ++ b) -> NoDup a.
+Proof.
+  induction a as [|y a IH]; simpl; intros H; [constructor|].
+  inversion H; subst. constructor.
+  - intro Hin. apply H2. apply in_or_app. left. exact Hin.
+  - apply IH, H3.
+Qed.
+
+Lemma two_outcomes_dup {B} (l : list (nat * B)) p o1 o2 :
+  In (p, o1) l -> In (p, o2) l -> o1 <> o2 -> ~ NoDup (map fst l).
+Proof.
+  induction l as [|[q o] l IH]; simpl; intros H1 H2 Hne Hnd; [contradiction|].
+  inversion Hnd; subst.
+  destruct H1 as [E1|H1]; destruct H2 as [E2|H2].
+  - inversion E1; inversion E2; subst. contradiction.
+  - inversion E1; subst. apply H3. apply in_map_iff. exists (p, o2). split; [reflexivity | exact H2].
+  - inversion E2; subst. apply H3. apply in_map_iff. exists (p, o1). split; [reflexivity | exact H1].
+  - apply (IH H1 H2 Hne H4).
+Qed.
+
+(* ---------- the layer theorem ---------- *)
+Lemma pairing_lemma cur evs :
+  core_contract cur evs ->
+  let st := run cur evs in
+  fatal st = false /\
+  map fst (tofsm st) = committed st /\
+  map snd (tofsm st) = firstn (length (committed st)) (enqueued st) /\
+  (forall k cmd tag c, nth_error (tofsm st) k = Some (ENormal cmd tag, c) ->
+     c = CPending tag /\
+     (exists r, In r (reqs st) /\ rp r = tag /\ rcmd r = cmd) /\
+     forall s0, In (tag, Applied (Some (snd (apply (fsm_state s0 (firstn k (tofsm st))) cmd))))
+                   (fsm_run s0 (tofsm st))) /\
+  (forall k c, nth_error (tofsm st) k = Some (ENop, c) -> exists g, c = CGroup g).
+Proof.
+  intros Hc st. pose proof (run_Inv cur evs Hc) as HI. fold st in HI.
+  destruct HI as [Hf Hp Hlf Hmfl Hfl Hcm He Hq Hm Hn Hperm Hr Herr].
+  split; [exact Hf|]. split; [exact Hcm|]. split.
+  - rewrite He. rewrite <- Hcm. rewrite map_length. rewrite <- (map_length snd (tofsm st)).
+    rewrite firstn_app, Nat.sub_diag, firstn_all. simpl. rewrite app_nil_r. reflexivity.
+  - split.
+    + intros k cmd tag c Hk.
+      assert (In (ENormal cmd tag, c) (tofsm st)) as Hin by (eapply nth_error_In; eauto).
+      rewrite Forall_forall in Hm. specialize (Hm _ Hin). simpl in Hm.
+      destruct c as [p|g]; simpl in Hm; [|contradiction]. subst p.
+      split; [reflexivity|]. split.
+      * apply Hr. rewrite Hp. apply in_or_app. left. rewrite <- Hcm.
+        apply in_map_iff. exists (ENormal cmd tag, CPending tag). split; [reflexivity | exact Hin].
+      * intros s0. eapply fsm_run_result; [exact Hk | simpl; left; reflexivity].
+    + intros k c Hk.
+      assert (In (ENop, c) (tofsm st)) as Hin by (eapply nth_error_In; eauto).
+      rewrite Forall_forall in Hm. specialize (Hm _ Hin). simpl in Hm.
+      destruct c as [p|g]; simpl in Hm; [contradiction|]. exists g. reflexivity.
+Qed.
+
+(* every Pending is concluded at most once (by the loop or by the FSM loop) and is never both concluded and
+   still queued; once the loop has ended every Pending received has been concluded exactly once *)
+Lemma concluded_once_lemma cur evs s0 :
+  core_contract cur evs ->
+  let st := run cur evs in
+  NoDup (seen st) ->
+  NoDup (map fst (concl st ++ fsm_run s0 (tofsm st)) ++ flat_map (fun ce => pids (fst ce)) (queue st)) /\
+  (leading st = false -> Permutation (map fst (concl st ++ fsm_run s0 (tofsm st))) (seen st)).
+Proof.
+  intros Hc st Hnd. pose proof (run_Inv cur evs Hc) as HI. fold st in HI.
+  destruct HI as [Hf Hp Hlf Hmfl Hfl Hcm He Hq Hm Hn Hperm Hr Herr].
+  unfold all_pids in Hperm. rewrite map_app, fsm_run_pids. split.
+  - rewrite <- app_assoc. eapply Permutation_NoDup; [apply Permutation_sym; exact Hperm | exact Hnd].
+  - intros Hl. rewrite (Hn Hl) in Hperm. simpl in Hperm. rewrite app_nil_r in Hperm. exact Hperm.
+Qed.
+
+(* a request answered with a definite error (ErrNodeNotLeader, ErrTermMismatch) was never handed to core.Propose *)
+Lemma definite_error_never_proposed_lemma cur evs :
+  core_contract cur evs ->
+  let st := run cur evs in
+  NoDup (seen st) ->
+  forall p o, In (p, o) (concl st) -> (o = ENotLeader \/ o = ETermMismatch) ->
+  forall cmd, ~ In (ENormal cmd p) (proposed st).
+Proof.
+  intros Hc st Hnd p o Hin Ho cmd Hpr. pose proof (run_Inv cur evs Hc) as HI. fold st in HI.
+  destruct HI as [Hf Hp Hlf Hmfl Hfl Hcm He Hq Hm Hn Hperm Hr Herr].
+  assert (NoDup (all_pids st)) as Hnd2.
+  { eapply Permutation_NoDup; [apply Permutation_sym; exact Hperm | exact Hnd]. }
+  unfold all_pids in Hnd2.
+  assert (In p (map fst (concl st))) as Hpc.
+  { apply in_map_iff. exists (p, o). split; [reflexivity | exact Hin]. }
+  rewrite Hp in Hpr. apply in_app_or in Hpr. destruct Hpr as [Hpr|Hpr]; [|apply in_app_or in Hpr; destruct Hpr as [Hpr|Hpr]].
+  - rewrite <- Hcm in Hpr. apply in_map_iff in Hpr. destruct Hpr as [[e c] [E Hec]]. simpl in E. subst e.
+    rewrite Forall_forall in Hm. pose proof (Hm _ Hec) as M. simpl in M.
+    destruct c as [p'|g]; simpl in M; [|contradiction]. subst p'.
+    eapply (nodup_app_disj _ _ p Hnd2 Hpc). apply in_or_app. left.
+    apply in_flat_map. exists (ENormal cmd p, CPending p). split; [exact Hec | simpl; left; reflexivity].
+  - apply in_map_iff in Hpr. destruct Hpr as [[c e] [E Hec]]. simpl in E. subst e.
+    rewrite Forall_forall in Hq. pose proof (Hq _ Hec) as M. simpl in M.
+    destruct c as [p'|g]; simpl in M; [|contradiction]. subst p'.
+    eapply (nodup_app_disj _ _ p Hnd2 Hpc). apply in_or_app. right.
+    apply in_flat_map. exists (CPending p, ENormal cmd p). split; [exact Hec | simpl; left; reflexivity].
+  - apply in_map_iff in Hpr. destruct Hpr as [[c e] [E Hec]]. simpl in E. subst e.
+    rewrite Forall_forall in Hmfl. pose proof (Hmfl _ Hec) as M. simpl in M.
+    destruct c as [p'|g]; simpl in M; [|contradiction]. subst p'.
+    assert (In (p, ENotLeaderAnymore) (concl st)) as H2.
+    { eapply Hfl; [exact Hec | simpl; left; reflexivity]. }
+    apply nodup_app_l in Hnd2.
+    eapply (two_outcomes_dup (concl st) p o ENotLeaderAnymore Hin H2); [|exact Hnd2].
+    destruct Ho; subst; discriminate.
+Qed.
+
+End Layer.
+
+(* ---------- non-vacuity: a concrete run that satisfies the contract, and one that does not ---------- *)
+Definition ex_apply (s : Z) (c : Z) : Z * Z := ((s + c)%Z, s).
+Definition ex_run : list event :=
+  [EvProp [mkReq 1 10%Z 0%Z; mkReq 2 20%Z 7%Z; mkReq 3 30%Z 5%Z]; EvVerify [4; 5];
+   EvCommit [ENormal 10%Z 1; ENormal 30%Z 3]; EvProp [mkReq 6 60%Z 5%Z]; EvCommit [ENop]; EvStepDown;
+   EvProp [mkReq 7 70%Z 0%Z]].
+
+Example ex_contract : core_contract Z 5%Z ex_run.
+Proof.
+  unfold core_contract, ex_run. simpl.
+  repeat split; try (intros _; eexists; simpl; reflexivity).
+Qed.
+
+Example ex_conclusions :
+  let st := run Z 5%Z ex_run in
+  concl Z st ++ fsm_run Z Z ex_apply 0%Z (tofsm Z st) =
+  [(2, ETermMismatch Z); (6, ENotLeaderAnymore Z); (7, ENotLeader Z);
+   (1, Applied Z (Some 0%Z)); (3, Applied Z (Some 10%Z)); (4, Applied Z None); (5, Applied Z None)].
+Proof. reflexivity. Qed.
+
+(* if the core hands back an entry this loop did not propose (contract broken), the pairing goes wrong:
+   the waiter of command 10 is concluded with the result of a foreign command *)
+Example ex_contract_needed :
+  let st := run Z 5%Z [EvProp [mkReq 1 10%Z 0%Z]; EvCommit [ENormal 99%Z 42]] in
+  tofsm Z st = [(ENormal 99%Z 42, CPending 1)].
+Proof. reflexivity. Qed.
